@@ -5,6 +5,7 @@
 //
 //	b, err := codec.Encode(R(v), version)            must succeed
 //	wasNull, err := codec.Decode(b, fresh *R, ...)   must succeed, wasNull == (v is NULL), decoded value == v
+//	codec.Decode(b, same *R already holding another value)   the same again (re-used destination)
 //	codec.Decode(b, *interface{}, ...)               dynamic type == PreferredGoType(t) == the type documented
 //	                                                 in doc.go / codec.go, value == v (nil for NULL)
 //
@@ -14,12 +15,15 @@ package main
 
 import (
 	"fmt"
+	"hash/fnv"
 	"os"
 	"reflect"
 	"runtime/debug"
 	"runtime/pprof"
 	"sync"
 	"sync/atomic"
+
+	"github.com/datastax/go-cassandra-native-protocol/datacodec"
 
 	"verif/internal/cqlgen"
 	"verif/internal/cqlref"
@@ -67,6 +71,11 @@ func probe(cs cqlgen.Case) *cqlgen.Failure {
 	}
 	if err := cqlgen.MatchTop(eff, t, v, val); err != nil {
 		return &cqlgen.Failure{Stage: "roundtrip", Msg: err.Error(), LibHex: lib}
+	}
+
+	// same representation, destination already holding a different value
+	if f := reuseProbe(cs, codec, b); f != nil {
+		return f
 	}
 
 	// untyped destination
@@ -123,6 +132,73 @@ func probe(cs cqlgen.Case) *cqlgen.Failure {
 	return nil
 }
 
+const reusedStage = "roundtrip-reused-destination"
+
+var (
+	runSeed       int64
+	reuseJudged   int64
+	reuseSkipped  int64 // no different value could be derived / pre-fill failed: not judged
+	reuseSameFill int64
+)
+
+// reuseProbe decodes b (the encoding of the case's value) into a destination of the case's
+// representation that was first filled by decoding a DIFFERENT value of the same type and
+// representation (cqlgen.Refill: NULLs replaced by values, scalars redrawn, sometimes one more
+// element), and requires what is required of a fresh destination: doc.go says NULL sets the
+// destination to its zero value, and a decoded value replaces what was there. A Go map that
+// keeps old entries is counted, not judged (cqlgen.MatchReused).
+func reuseProbe(cs cqlgen.Case, codec datacodec.Codec, b []byte) *cqlgen.Failure {
+	t, v, ver := cs.Type, cs.Value, cs.Version
+	stream := uint64(cs.Index)
+	if cs.Index < 0 {
+		h := fnv.New64a()
+		h.Write([]byte(cs.Sig()))
+		stream = h.Sum64()
+	}
+	filler := cqlgen.Refill(mon.NewRand(runSeed, stream^0x5eed), cs.Repr, t, v, ver)
+	if _, err := cqlref.Serialize(t, filler, ver); err != nil {
+		atomic.AddInt64(&reuseSkipped, 1)
+		return nil
+	}
+	src, err := cqlgen.Build(cs.Repr, t, filler)
+	if err != nil {
+		atomic.AddInt64(&reuseSkipped, 1)
+		return nil
+	}
+	fb, err, pan := cqlgen.SafeEncode(codec, src.Interface(), ver)
+	if err != nil || pan != "" {
+		atomic.AddInt64(&reuseSkipped, 1)
+		return nil
+	}
+	dest, eff, val := cqlgen.TopDest(cs.Repr)
+	if _, err, pan := cqlgen.SafeDecode(codec, fb, dest, ver); err != nil || pan != "" {
+		atomic.AddInt64(&reuseSkipped, 1)
+		return nil
+	}
+	if cqlref.Equal(t, filler, v) {
+		atomic.AddInt64(&reuseSameFill, 1)
+	}
+	atomic.AddInt64(&reuseJudged, 1)
+	lib := cqlgen.Hex(b)
+	pre := "destination pre-filled with " + cqlref.Format(t, filler)
+	if len(pre) > 300 {
+		pre = pre[:300] + "..."
+	}
+	wasNull, err, pan := cqlgen.SafeDecode(codec, b, dest, ver)
+	switch {
+	case pan != "":
+		return &cqlgen.Failure{Stage: reusedStage, Msg: "panic: " + pan + "; " + pre, LibHex: lib}
+	case err != nil:
+		return &cqlgen.Failure{Stage: reusedStage, Msg: "Decode failed: " + err.Error() + "; " + pre, LibHex: lib}
+	case wasNull != v.Null:
+		return &cqlgen.Failure{Stage: reusedStage, Msg: fmt.Sprintf("wasNull=%v for %s; %s", wasNull, cqlref.Format(t, v), pre), LibHex: lib}
+	}
+	if err := cqlgen.MatchReused(eff, t, v, val); err != nil {
+		return &cqlgen.Failure{Stage: reusedStage, Msg: err.Error() + "; " + pre, LibHex: lib}
+	}
+	return nil
+}
+
 // blamePreferred returns the deepest sub-type of t whose PreferredGoType differs from the
 // documented one (t itself if no proper sub-type does), with both types.
 func blamePreferred(t *cqlref.Type) (*cqlref.Type, reflect.Type, reflect.Type) {
@@ -156,6 +232,7 @@ func run(c *mon.Ctx) {
 	c.Assume("cqlgen.Build/Match (this harness) convert exactly between abstract values and Go representations; only pairs the representation holds exactly are generated (date<->midnight UTC, timestamp<->millisecond instants, integers within the Go type's range, NaN only in same-width floats)")
 	c.Assume("nil and empty Go slices/maps are not distinguished inside plain slice/map slots; NULL vs empty is judged through wasNull, pointers and interface{} slots")
 
+	runSeed = c.Seed
 	depth := c.Pick(3, 4)
 	plan := cqlgen.NewPlan(c.Seed, depth, c.Thorough())
 	n := c.Pick(300000, 10000000)
@@ -172,6 +249,20 @@ func run(c *mon.Ctx) {
 	report := func(cs cqlgen.Case, f *cqlgen.Failure) {
 		bc, bf := cqlgen.Blame(cs, f, probe)
 		key := cqlgen.Key(bc, bf)
+		if bf.Stage == reusedStage && bf.Key == "" {
+			// what matters is the container kind, whether a NULL is involved, and the Go shape
+			class := "no-null"
+			if bc.Value.Null {
+				class = "null"
+			} else {
+				for _, e := range bc.Value.Elems {
+					if e.Null {
+						class = "null-element"
+					}
+				}
+			}
+			key = fmt.Sprintf("%s/%s/%s/%s", bc.Type.Kind, reusedStage, class, bc.Repr.Class())
+		}
 		if _, dup := keys.LoadOrStore(key, true); dup {
 			c.Violation(key, nil) // already recorded: count only
 			return
@@ -224,6 +315,10 @@ func run(c *mon.Ctx) {
 	})
 	cov.Flush(c)
 	distinct.Flush(c)
+	c.Count("reused_destination_decodes_judged", atomic.LoadInt64(&reuseJudged))
+	c.Count("reused_destination_skipped_no_prefill", atomic.LoadInt64(&reuseSkipped))
+	c.Count("reused_destination_prefill_equal_to_value", atomic.LoadInt64(&reuseSameFill))
+	c.Count("reused_go_map_kept_old_entries_not_judged", atomic.LoadInt64(&cqlgen.ReusedMapKeptOldEntries))
 	c.Count("untyped_check_skipped_no_go_type_for_preferred", atomic.LoadInt64(&untypedSkipped))
 	c.Count("preferred_type_compared_with_doc", atomic.LoadInt64(&preferredChecked))
 	c.Count("empty_value_decoded_as_nil_slice_or_map_tolerated", atomic.LoadInt64(&cqlgen.NilForEmpty))
